@@ -30,7 +30,12 @@ func init() {
 	register(&Property{ID: "C02", Stubs: stubs, Outside: outside, Functions: fns,
 		Jobs: func(tier string) []*Job {
 			// F1 half: the lexer/parser loops on every rune string up to N (shared with C03)
-			js := properties["C03"].Jobs(tier)
+			var js []*Job
+			for _, j := range properties["C03"].Jobs(tier) {
+				if j.Name != "read-n4" { // 30 min on its own; it stays in C03's thorough tier
+					js = append(js, j)
+				}
+			}
 			return append(js, fragJobs(tier)...)
 		},
 		Filter: func(v *Violation) bool { return v.Kind == "budget" }})
